@@ -24,7 +24,7 @@ RULE = ('generated multi-function / multi-thread programs (38 shapes: loops, rec
 ASSUMPTIONS = ['only events CPython delivers to the trace function are in the quantifier; the one case in which the agent '
                'declines a frame itself and this is accepted: the function was entered while no tracepoint at all was installed',
                'method tracepoints always carry method_name (the unnamed form is undocumented)']
-REQUIRE = {'reference_events': 50000, 'expected_actions': 2000, 'runs_with_threads': 10, 'colocated_runs': 40,
+REQUIRE = {'sourceless_runs_with_a_nameless_method_tracepoint': 15, 'reference_events': 50000, 'expected_actions': 2000, 'runs_with_threads': 10, 'colocated_runs': 40,
            'method_tracepoint_hits': 100,
            'installed_via_convert_response': 60, 'updated_while_matching': 20, 'twin_file_runs': 60, 'explicit_stage_runs': 60, 'installed_while_program_running': 5}
 
@@ -174,6 +174,19 @@ def case_place(seed, out, spec, wd):
 
         rig.pre = late_pre
         installed = [swapper] if late_install else [swapper] + keep
+    sourceless = not mid_update and r.chance(0.12)
+    if sourceless:
+        # the program runs without its source file (a deployment of compiled files only), and one of the tracepoints is
+        # a method span that names no method: the agent would have to read the source to place it. Whatever becomes of
+        # that one, every other tracepoint still acts where it is configured.
+        import linecache
+        os.remove(prog.path)
+        linecache.clearcache()
+        nameless = line_trigger('tpNameless', prog.base, r.pick(prog.lines),
+                                {'span': 'method', 'snapshot': 'no_collect', 'fire_count': '-1', 'fire_period': '0'}, [], [])
+        if nameless is not None:
+            installed = [nameless] + list(installed)
+            out.count('sourceless_runs_with_a_nameless_method_tracepoint')
     rig.install(installed)
     actual = []   # (tp_id, kind, ev.seq)
 
@@ -235,6 +248,7 @@ def case_place(seed, out, spec, wd):
     if exc is not None:
         out.inconc('C03 host program raised %r (seed %s)' % (exc, seed))
         return
+    actual = [a for a in actual if a[0] != 'tpNameless']
     exp_set, act_set = _multiset(expected), _multiset(actual)
     evmap = {ev.seq: ev for ev in rig.events}
     missing = [(k, n - act_set.get(k, 0)) for k, n in exp_set.items() if act_set.get(k, 0) < n]
